@@ -110,7 +110,11 @@ func (e *enc) newFx(fn *ssa.Function, depth int) *fx {
 						continue
 					}
 					if _, have := x.dbg[d.X]; !have {
-						x.dbg[d.X] = id.Name
+						nm := id.Name
+						if o, renamed := aliasesOf(fn).rev[nm]; renamed {
+							nm = o // contract labels (onwrite, calls ... as) speak of the recorded name
+						}
+						x.dbg[d.X] = nm
 					}
 				}
 			}
@@ -380,7 +384,11 @@ func describeValue(fn *ssa.Function, v ssa.Value) string {
 				if d, ok := in.(*ssa.DebugRef); ok {
 					if id, ok := d.Expr.(*ast.Ident); ok && !d.IsAddr {
 						if _, have := dbg[d.X]; !have {
-							dbg[d.X] = id.Name
+							nm := id.Name
+							if o, renamed := aliasesOf(fn).rev[nm]; renamed {
+								nm = o
+							}
+							dbg[d.X] = nm
 						}
 					}
 				}
